@@ -174,6 +174,20 @@ DEFAULT_QUERY_LANGUAGE = 'WQL'
 __all__ = ['WBEMSubscriptionManager']
 
 
+def _path_without_host(path):
+    """
+    Return a copy of an instance path with the host removed, also in its
+    reference-typed keys. Within one WBEM server, instance paths that differ
+    only in their host identify the same instance.
+    """
+    ret = path.copy()
+    ret.host = None
+    for name, value in ret.keybindings.items():
+        if isinstance(value, CIMInstanceName):
+            ret.keybindings[name] = _path_without_host(value)
+    return ret
+
+
 def validate_persistence_type(pt):
     """
     Validate persistence type parameter pt as string possible
@@ -818,7 +832,8 @@ class WBEMSubscriptionManager:
         # We iterate backwards because we change the list
         for i in range(len(inst_list) - 1, -1, -1):
             inst = inst_list[i]
-            if inst.path == dest_path:
+            if _path_without_host(inst.path) == \
+                    _path_without_host(dest_path):
                 del inst_list[i]
                 # continue loop to find any possible duplicate entries
 
@@ -1092,7 +1107,8 @@ class WBEMSubscriptionManager:
         # We iterate backwards because we change the list
         for i in range(len(inst_list) - 1, -1, -1):
             inst = inst_list[i]
-            if inst.path == filter_path:
+            if _path_without_host(inst.path) == \
+                    _path_without_host(filter_path):
                 del inst_list[i]
                 # continue loop to find any possible duplicate entries
 
@@ -1307,7 +1323,8 @@ class WBEMSubscriptionManager:
         # We iterate backwards because we change the list
         for i in range(len(inst_list) - 1, -1, -1):
             inst = inst_list[i]
-            if inst.path == sub_path:
+            if _path_without_host(inst.path) == \
+                    _path_without_host(sub_path):
                 del inst_list[i]
                 # continue loop to find any possible duplicate entries
 
